@@ -1,5 +1,6 @@
 import FsutilModel.Sender
 import FsutilModel.Model.SendProto
+import FsutilModel.SenderStats
 /-! # C06 — Sender speaks the documented wire protocol -/
 namespace Fsm.C06
 open S
@@ -17,6 +18,20 @@ theorem sender_data (v : List (Bool × Bytes)) (es : List Ev) (s : St) (h : run 
 /-- the invariant behind it is inductive over every step -/
 theorem invariant_step {s s' : St} {e : Ev} (hi : Inv s) (hs : step s e = some s') : Inv s' :=
   S.inv_step hi hs
+
+/-- STAT sequence: in every reachable state the number of STATs sent is at most the size of the view (the k-th STAT
+announces the k-th view entry, by construction of the step), and once the end-of-stats marker has been sent every
+entry has been announced. -/
+theorem sender_stats (v : List (Bool × Bytes)) (es : List Ev) (s : St) (h : run (init v) es = some s) :
+    s.sent ≤ s.view.length ∧ (s.endSent = true → s.sent = s.view.length) :=
+  let hi := statInv_run es _ _ (statInv_init v) h
+  ⟨hi.le, hi.fin⟩
+
+/-- exactly one end marker: after it neither another STAT nor a second marker is enabled -/
+theorem one_end_marker (v : List (Bool × Bytes)) (es : List Ev) (s : St) (h : run (init v) es = some s)
+    (he : s.endSent = true) : (∀ s', step s .sendStat ≠ some s') ∧ (∀ s', step s .sendEnd ≠ some s') :=
+  ⟨fun s' hs => no_stat_after_end he (statInv_run es _ _ (statInv_init v) h) hs,
+   fun s' hs => end_at_most_once he hs⟩
 
 /-- non-vacuity: a run announcing one regular 3-byte file, requested, opened, sent in chunks 2+1 and terminated -/
 example : (run (init [(true, [1, 2, 3])]) [.sendStat, .recvReq 0, .sendEnd, .open_ 0, .data 0 2, .data 0 1, .term 0]).isSome = true := by
